@@ -339,6 +339,12 @@ where
                     dataset.substores().count() == 0
                 }
             }
+            Filter::AnnotationDataSet(handle, _) => dataset.handle() == *handle,
+            Filter::DataSets(handles, FilterMode::Any, _) => handles.contains(&dataset.handle()),
+            Filter::BorrowedDataSets(handles, FilterMode::Any, _) => {
+                handles.contains(&dataset.handle())
+            }
+            Filter::AnnotationData(set, _, _) => dataset.handle() == *set,
             _ => unreachable!(
                 "Filter {:?} not implemented for FilteredDataSets",
                 self.filter
